@@ -339,7 +339,7 @@ def r08_3_message_formats(ctx: Ctx) -> RuleResult:
     # the two composing formats inside the factories themselves
     pr = ctx.M.cls("ParseResult")
     for f in pr.all_defs:
-        for n in ([] if isinstance(f.node, ast.Lambda) else [x for g in [f, *f.nested.values()] for x in own_nodes(g.node)]):
+        for n in ([] if isinstance(f.node, ast.Lambda) else [x for g in [f, *[h for lst in f.nested_all.values() for h in lst]] for x in own_nodes(g.node)]):
             if isinstance(n, ast.Call) and isinstance(n.func, ast.Attribute) and n.func.attr == "format":
                 rr.inst()
                 recv = n.func.value
